@@ -541,7 +541,8 @@ class Parser(object):
         # an escape sequence is an ordinary spelling of its character (7.6); only a name that *decodes* to a
         # reserved word can be read either way in ES5.1 and is left to no verdict
         decoded = re.sub(r'\\u([0-9a-fA-F]{4})', lambda m: chr(int(m.group(1), 16)), t.value)
-        self.res.flags.add('escaped_identifier' if decoded in RESERVED else 'escaped_name')
+        # (get / set are contextual: whether an escaped spelling still introduces an accessor is open too)
+        self.res.flags.add('escaped_identifier' if (decoded in RESERVED or decoded in ('get', 'set')) else 'escaped_name')
 
     def ident(self):
         t = self.tok
@@ -651,19 +652,14 @@ class Parser(object):
                     return self._lenient_function_statement(first)
                 return self.parse_function(True)
             if v not in RESERVED:
-                # possible label: Identifier ':'
-                save_tokens = len(self.tokens)
-                save = (self.tok, self.prev_end)
-                ident = self.ident()
-                if self.is_punct(':'):
-                    self.advance()
-                    colon = self.last_index()
-                    body = self.parse_statement()
-                    return R('Label', first, self.last_index(), optok=colon,
-                             identifier=ident, statement=body)
-                # not a label: rewind one token
-                assert len(self.tokens) == save_tokens + 1
-                self._rewind(save, save_tokens)
+                lab = self._maybe_label(first)
+                if lab is not None:
+                    return lab
+        elif t.kind == 'name':
+            # a name spelled with an escape sequence is never a keyword, but it can be a label
+            lab = self._maybe_label(first)
+            if lab is not None:
+                return lab
         # expression statement
         if t.kind == 'name' and t.value == 'function' and 'escaped' not in t.flags:
             self.error('expression_statement_starts_with_function')
@@ -700,6 +696,22 @@ class Parser(object):
             self.error('function_statement_without_name')
         self.consume_semicolon()
         return R('ExprStatement', first, self.last_index(), expr=e)
+
+    def _maybe_label(self, first):
+        # possible label: Identifier ':'
+        save_tokens = len(self.tokens)
+        save = (self.tok, self.prev_end)
+        ident = self.ident()
+        if self.is_punct(':'):
+            self.advance()
+            colon = self.last_index()
+            body = self.parse_statement()
+            return R('Label', first, self.last_index(), optok=colon,
+                     identifier=ident, statement=body)
+        # not a label: rewind one token
+        assert len(self.tokens) == save_tokens + 1
+        self._rewind(save, save_tokens)
+        return None
 
     def _rewind(self, save, ntokens):
         # undo the commit of exactly the tokens appended since ``ntokens``
